@@ -19,10 +19,15 @@ def layouts(tier):
         dict(name="k4 single span, 4 sites", k=4, t=[0, 0, 0, 0, 4, 4, 4, 4], tau=[0, 1, 3, 4], ln=0, rn=0),
         dict(name="k4 natural spline (repeated end sites, second-derivative conditions)", k=4, t=[0, 0, 0, 0, 1, 2, 3, 3, 3, 3], tau=[0, 0, 1, 2, 3, 3], ln=2, rn=2),
     ]
-    if tier == "thorough":
+    if True:
         L += [dict(name="k4 uneven knots, first-derivative end conditions", k=4, t=[0, 0, 0, 0, Fr(1, 2), 2, 3, 3, 3, 3], tau=[0, 0, Fr(1, 2), 2, 3, 3], ln=1, rn=1),
               dict(name="k3 repeated interior knot", k=3, t=[0, 0, 0, 1, 1, 2, 2, 2], tau=[0, Fr(1, 2), 1, Fr(3, 2), 2], ln=0, rn=0),
               dict(name="k5 single span", k=5, t=[0] * 5 + [2] * 5, tau=[0, Fr(1, 2), 1, Fr(3, 2), 2], ln=0, rn=0)]
+    if tier == "thorough":
+        L += [dict(name="k5 two interior knots, 7 sites", k=5, t=[0] * 5 + [1, 2] + [3] * 5, tau=[0, Fr(1, 2), 1, Fr(3, 2), 2, Fr(5, 2), 3], ln=0, rn=0),
+              dict(name="k6 single span", k=6, t=[0] * 6 + [2] * 6, tau=[0, Fr(1, 3), Fr(2, 3), 1, Fr(3, 2), 2], ln=0, rn=0),
+              dict(name="k4 natural spline, uneven interior sites", k=4, t=[0, 0, 0, 0, Fr(1, 2), Fr(3, 2), 4, 4, 4, 4], tau=[0, 0, Fr(1, 2), Fr(3, 2), 4, 4], ln=2, rn=2),
+              dict(name="k3 clamped-slope ends", k=3, t=[0, 0, 0, 1, 3, 3, 3], tau=[0, 0, 1, 3], ln=1, rn=0)]
     return L
 
 
